@@ -260,6 +260,12 @@ func ruleTTmplOnly(c *Ctx, only map[string]bool) {
 	if only == nil || only["IsP2PK"] {
 		ruleTTmplP2PK(c)
 	}
+	if only == nil || only["IsMultiSigOut"] {
+		ruleTTmplMultisig(c)
+	}
+	if only == nil || only["IsP2PKHInscription"] {
+		ruleTInsc(c)
+	}
 	// undecodable scripts are never key-bearing: IsP2PK / IsMultiSigOut / IsP2PKHInscription
 	// return false on the err != nil branch of DecodeParts
 	pe := pEngine(c)
@@ -751,6 +757,118 @@ func ruleTTmplP2PK(c *Ctx) {
 	}
 	boolTableOn(c, "T-tmpl", "IsP2PK", fn, paths, namer, consistent, spec,
 		map[string][]int64{"k0": {2, 3, 4, 6, 7}, "len0": {33, 65}, "lenparts": {2}, "s0": {0xac}, "len1": {1}})
+}
+
+// ruleTTmplMultisig: the bare-multisig recogniser. (a) isSmallIntOp on all 256 opcode bytes: OP_0 and
+// OP_1..OP_16. (b) IsMultiSigOut over the decoded parts for scripts of up to three parts (the shape without
+// keys, where its scan of the middle parts runs zero times): fewer than three parts are never multisig; with
+// three, the first and the one before last are non-empty small-integer opcodes and the last starts with
+// OP_CHECKMULTISIG. Longer scripts (the scan of the keys) are not part of this table.
+func ruleTTmplMultisig(c *Ctx) {
+	if fn := c.P.Func("bscript", "", "isSmallIntOp"); fn != nil {
+		if ps, err := feasiblePaths(fn, 256); err != nil {
+			c.Undecided("T-tmpl", "isSmallIntOp", fn.Pos(), "cannot enumerate paths: "+err.Error())
+		} else {
+			boolTableOn(c, "T-tmpl", "isSmallIntOp", fn, ps, func(k string) string {
+				if k == "p0" {
+					return "b"
+				}
+				return ""
+			}, func(map[string]int64) bool { return true }, func(m map[string]int64) bool {
+				v := m["b"]
+				return v == 0 || (v >= 0x51 && v <= 0x60)
+			}, map[string][]int64{"b": {0, 0x50, 0x51, 0x60, 0x61}})
+		}
+	} else {
+		c.Undecided("T-tmpl", "isSmallIntOp", token.NoPos, "not found")
+	}
+	fn := c.P.Func("bscript", "*Script", "IsMultiSigOut")
+	if fn == nil {
+		c.Undecided("T-tmpl", "IsMultiSigOut", token.NoPos, "not found")
+		return
+	}
+	all, err := feasiblePaths(fn, 8192)
+	if err != nil {
+		c.Undecided("T-tmpl", "IsMultiSigOut", fn.Pos(), "cannot enumerate paths: "+err.Error())
+		return
+	}
+	var paths []*DPath
+	parts := ""
+	for _, p := range all {
+		errPath := false
+		var keep []PathCond
+		for _, cd := range p.Conds {
+			s := cd.Cond.String()
+			if m := decodeErrRe.FindStringSubmatch(s); m != nil {
+				parts = m[1] + "#0"
+				if (strings.Contains(s, "!= nil")) == cd.Truth {
+					errPath = true
+				}
+				continue
+			}
+			keep = append(keep, cd)
+		}
+		if errPath || p.EndKind != "return" {
+			continue // the scan of the middle parts going round: not in this table
+		}
+		q := *p
+		q.Conds = keep
+		paths = append(paths, &q)
+	}
+	if parts == "" || len(paths) == 0 {
+		c.Undecided("T-tmpl", "IsMultiSigOut", fn.Pos(), "no path tests the error of DecodeParts")
+		return
+	}
+	n := "len(" + parts + ")"
+	pen := parts + "[(" + n + " - 2)]"
+	last := parts + "[(" + n + " - 1)]"
+	callRe := regexp.MustCompile(`^bscript\.isSmallIntOp@\d+\((.*)\)$`)
+	namer := func(k string) string {
+		switch k {
+		case n:
+			return "lenparts"
+		case "len(" + parts + "[0])":
+			return "len0"
+		case "len(" + parts + "[1])":
+			return "lenK" // the first key, looked at by the scan: only with more than three parts
+		case "len(" + pen + ")":
+			return "lenM"
+		case "len(" + last + ")":
+			return "lenL"
+		case last + "[0]":
+			return "op"
+		}
+		if m := callRe.FindStringSubmatch(k); m != nil {
+			switch m[1] {
+			case parts + "[0][0]":
+				return "sm0"
+			case pen + "[0]":
+				return "smM"
+			}
+		}
+		return ""
+	}
+	consistent := func(m map[string]int64) bool {
+		if m["lenparts"] > 3 || m["lenK"] != 0 {
+			return false // the scan of the keys runs: outside this table
+		}
+		if m["sm0"] > 1 || m["smM"] > 1 {
+			return false
+		}
+		if m["lenparts"] < 3 {
+			// parts that do not exist are not read (engine P proves the reads guarded)
+			return m["len0"] == 0 && m["lenM"] == 0 && m["lenL"] == 0 && m["op"] == 0 && m["sm0"] == 0 && m["smM"] == 0
+		}
+		if m["len0"] == 0 && m["sm0"] != 0 || m["lenM"] == 0 && m["smM"] != 0 || m["lenL"] == 0 && m["op"] != 0 {
+			return false
+		}
+		return true
+	}
+	spec := func(m map[string]int64) bool {
+		return m["lenparts"] == 3 && m["len0"] >= 1 && m["sm0"] == 1 && m["lenM"] >= 1 && m["smM"] == 1 && m["lenL"] >= 1 && m["op"] == 0xae
+	}
+	boolTableOn(c, "T-tmpl", "IsMultiSigOut", fn, paths, namer, consistent, spec,
+		map[string][]int64{"lenparts": {0, 1, 2, 3, 4}, "len0": {0, 1, 2}, "lenM": {0, 1, 2}, "lenL": {0, 1, 2}, "op": {0xae}, "sm0": {0, 1}, "smM": {0, 1}, "lenK": {0, 1}})
 }
 
 var decodeErrRe = regexp.MustCompile(`^\(?(bscript\.DecodeParts@\d+\(\*p0\))#1 [!=]= nil\)?$`)
